@@ -39,6 +39,6 @@ def is_orthonormal(vectors: list[np.ndarray]) -> bool:
     :return: True if vectors are orthonormal; False otherwise.
 
     """
-    return is_mutually_orthogonal(vectors) and np.allclose(
-        np.dot(vectors, np.conjugate(vectors).T), np.eye(len(vectors))
-    )
+    # One row per vector, also when the vectors are given as columns of shape (d, 1).
+    rows = np.array([np.ravel(vec) for vec in vectors])
+    return is_mutually_orthogonal(vectors) and np.allclose(np.dot(rows, np.conjugate(rows).T), np.eye(len(rows)))
